@@ -223,6 +223,54 @@ func (p *pkg) lastArgOfCallWith(fn, marker string) string {
 	return res
 }
 
+// intsComparedWith: integer literals compared (op) with an expression whose source text contains `marker`, inside func fn.
+func (p *pkg) intsComparedWith(fn, marker string, op token.Token) []int64 {
+	var out []int64
+	ast.Inspect(p.funcDecl(fn).Body, func(n ast.Node) bool {
+		b, ok := n.(*ast.BinaryExpr)
+		if !ok || b.Op != op {
+			return true
+		}
+		lit, ok := b.Y.(*ast.BasicLit)
+		if !ok || lit.Kind != token.INT {
+			return true
+		}
+		if strings.Contains(exprText(b.X), marker) {
+			v, _ := strconv.ParseInt(lit.Value, 0, 64)
+			out = append(out, v)
+		}
+		return true
+	})
+	if len(out) == 0 {
+		die("no comparison with %s in %s", marker, fn)
+	}
+	return out
+}
+
+func exprText(e ast.Expr) string {
+	switch v := e.(type) {
+	case *ast.Ident:
+		return v.Name
+	case *ast.SelectorExpr:
+		return exprText(v.X) + "." + v.Sel.Name
+	case *ast.CallExpr:
+		var a []string
+		for _, x := range v.Args {
+			a = append(a, exprText(x))
+		}
+		return exprText(v.Fun) + "(" + strings.Join(a, ",") + ")"
+	}
+	return "?"
+}
+
+func natList(xs []int64) string {
+	var p []string
+	for _, x := range xs {
+		p = append(p, strconv.FormatInt(x, 10))
+	}
+	return "[" + strings.Join(p, ", ") + "]"
+}
+
 func bytesLit(s string) string {
 	parts := make([]string, len(s))
 	for i := 0; i < len(s); i++ {
@@ -341,6 +389,18 @@ func main() {
 			die("no keys listed in the LFSCONFIG section")
 		}
 		return "def docLfsconfigKeys : List Bytes := " + bytesList(keys)
+	})
+	// ---- lfshttp/client.go (C10)
+	lh := safeLoad(filepath.Join(repo, "lfshttp"))
+	emit("redirectStatuses", func() string {
+		return "def redirectStatuses : List Nat := " + natList(lh.intsComparedWith("DoWithRedirect", "res.StatusCode", token.NEQ))
+	})
+	emit("redirectLimit", func() string {
+		v := lh.intsComparedWith("DoWithRedirect", "len(via)", token.GEQ)
+		if len(v) != 1 {
+			die("expected exactly one `len(via) >= N` in DoWithRedirect, found %d", len(v))
+		}
+		return fmt.Sprintf("def redirectLimit : Nat := %d", v[0])
 	})
 	// ---- creds/creds.go (C17)
 	crd := safeLoad(filepath.Join(repo, "creds"))
